@@ -6,6 +6,7 @@ from .. import core
 HEADER = """From MV Require Import Lib.Bytes Lib.Check Model.Macat.
 Open Scope string_scope.
 Open Scope N_scope.
+Open Scope list_scope.
 """
 
 FOOTER = """
